@@ -5,6 +5,7 @@ the model was validated (correspondence) against exactly these versions.
 -/
 import CueVerif.Gen.C15
 import CueVerif.Model.Modzip
+import CueVerif.Model.ModzipDir
 namespace CueVerif.Bridge.C15
 open CueVerif
 
@@ -27,6 +28,11 @@ theorem fileNameOK_eq (isLetter : Nat → Bool) (r : Nat) :
   · simp [h]
 
 theorem badWindowsNames_eq : Gen.C15.badWindowsNames = Modzip.badWindowsNames := by decide
+
+/-- the VCS directory names pruned by listFilesInDir and the prefix of isVendoredPackage, as
+regenerated from the source, are the model's -/
+theorem vcsNames_eq : Gen.C15.vcsNames = Modzip.vcsNames := by decide
+theorem vendorPrefix_eq : Gen.C15.vendorPrefix = Modzip.sVendorPrefix := by decide
 
 /-- every extraction of the module cache goes through modzip.Unzip from Cache.Fetch, and the
 registry client checks uploads with modzip.CheckZip from checkModule -/
